@@ -12,8 +12,9 @@ def run(tier):
             ("MC_Annot_stack2.cfg", "find_stackings scan of one candidate pair over every three-valued flag combination "
                                     "(near = float comparison may go either way), both residue orders; clauses as invariants",
              None, ("ScanPair", "ScanDone")),
-            ("MC_Annot_stack3.cfg", "find_stackings scan of three residues in every chain/number order: once, ordered, "
-                                    "sound, complete", None, ("ScanPair", "ScanDone")),
+            ("MC_Annot_stack3.cfg" if tier == "quick" else "MC_Annot_stack3_T.cfg",
+             "find_stackings scan of three residues in every chain/number order (quick: 6, thorough: 36 flag "
+             "combinations per candidate): once, ordered, sound, complete", None, ("ScanPair", "ScanDone")),
         ])
         recipes = annot.usable_recipes(tier) + annot.probe_recipes("C04", tier)
         cases = lib.pmap(annot.record_c04, recipes)
